@@ -21,13 +21,13 @@ def cases(tier):
     cs.append(Case("fp-max:cherry:eps=sym", constrain.h_kernel_fp,
                    dict(skel="cherry", which=["max"], eps_value=None, qtimeout_ms=120000),
                    weight=20))
-    fp_skels = ["cat3", "internal_sample"] if tier == "quick" else \
-        ["cat3", "internal_sample", "tri", "two_parents", "bal4"]
-    for sk in fp_skels:
-        for ev in ((1e-8,) if tier == "quick" else (1e-8, 1.0)):
-            cs.append(Case(f"fp-max:{sk}:eps={ev}", constrain.h_kernel_fp,
-                           dict(skel=sk, which=["max"], eps_value=ev, qtimeout_ms=120000,
-                                case_timeout_s=900 if tier == "thorough" else 420), weight=20))
+    fp = [("cat3", 1e-8), ("internal_sample", 1e-8)]
+    if tier == "thorough":      # sized by a full thorough run of C01 (same kernel)
+        fp += [("cat3", 1e-6), ("internal_sample", 1e-6), ("tri", 1e-8), ("tri", 1.0)]
+    for sk, ev in fp:
+        cs.append(Case(f"fp-max:{sk}:eps={ev}", constrain.h_kernel_fp,
+                       dict(skel=sk, which=["max"], eps_value=ev, qtimeout_ms=120000,
+                            case_timeout_s=2400 if tier == "thorough" else 420), weight=20))
     if tier == "thorough":
         from symx import skeletons as SK
         for sk in ["cat3", "bal4", "two_parents", "internal_sample"]:
